@@ -54,7 +54,7 @@ template<typename E>
 struct VecAdapter {
 	using V = frg::vector<E, TrackedAlloc>;
 	static constexpr const char *base = "vector";
-	static constexpr int NOPS = 19;
+	static constexpr int NOPS = 23;
 	struct State {
 		AllocState &as;
 		std::unique_ptr<V> a, b;
@@ -109,6 +109,11 @@ struct VecAdapter {
 		case 16: { std::unique_ptr<V> n(new V(std::move(a))); s.b = std::move(n); s.rb = s.ra; s.ra.clear(); s.a.reset(new V(TrackedAlloc(&s.as))); c.op("b=V(move(a))"); break; }
 		case 17: { V &ar = a; a = ar; c.op("a=a"); break; }
 		case 18: { E e(s.next); s.b->push_back(e); s.rb.push_back(s.next++); c.op("b.push_back"); break; }
+		// arguments that refer to an element of the container itself (valid for the reference sequence: v.push_back(v[i]))
+		case 19: if constexpr (std::is_copy_constructible_v<E>) { if(!s.ra.empty()) { size_t i = p % s.ra.size(); a.push(a[i]); s.ra.push_back(s.ra[i]); c.op(strf("push(a[%zu])", i)); } } break;
+		case 20: if constexpr (std::is_copy_constructible_v<E>) { if(!s.ra.empty()) { size_t i = p % s.ra.size(); a.emplace_back(a[i]); s.ra.push_back(s.ra[i]); c.op(strf("emplace_back(a[%zu])", i)); } } break;
+		case 21: if constexpr (std::is_copy_constructible_v<E>) { if(!s.ra.empty()) { size_t i = p % s.ra.size(); size_t n = s.ra.size() + 1 + (p >> 8) % 4; const E &proto = a[i]; a.resize(n, proto); s.ra.resize(n, s.ra[i]); c.op(strf("resize(%zu,a[%zu])", n, i)); } } break;
+		case 22: if(!s.ra.empty()) { size_t i = p % s.ra.size(); a.push(std::move(a[i])); s.ra.push_back(s.ra[i]); c.op(strf("push(move(a[%zu]))", i)); } break;
 		}
 	}
 };
@@ -118,7 +123,7 @@ template<typename E, size_t N>
 struct SmallVecAdapter {
 	using V = frg::small_vector<E, N, TrackedAlloc>;
 	static constexpr const char *base = "small_vector";
-	static constexpr int NOPS = 14;
+	static constexpr int NOPS = 18;
 	struct State {
 		AllocState &as;
 		std::unique_ptr<V> a, b;
@@ -164,6 +169,10 @@ struct SmallVecAdapter {
 		case 11: { E e(s.next); s.b->push_back(e); s.rb.push_back(s.next++); c.op("b.push_back"); break; }
 		case 12: { size_t n = N; a.resize(n); s.ra.resize(n, 0); c.op(strf("resize(N=%zu)", n)); break; }
 		case 13: { size_t n = N + 1; const E proto(5); a.resize(n, proto); s.ra.resize(n, 5); c.op(strf("resize(N+1=%zu,5)", n)); break; }
+		case 14: if constexpr (std::is_copy_constructible_v<E>) { if(!s.ra.empty()) { size_t i = p % s.ra.size(); a.push_back(a[i]); s.ra.push_back(s.ra[i]); c.op(strf("push_back(a[%zu])", i)); } } break;
+		case 15: if constexpr (std::is_copy_constructible_v<E>) { if(!s.ra.empty()) { size_t i = p % s.ra.size(); a.emplace_back(a[i]); s.ra.push_back(s.ra[i]); c.op(strf("emplace_back(a[%zu])", i)); } } break;
+		case 16: if constexpr (std::is_copy_constructible_v<E>) { if(!s.ra.empty()) { size_t i = p % s.ra.size(); size_t n = s.ra.size() + 1 + (p >> 8) % 4; const E &proto = a[i]; a.resize(n, proto); s.ra.resize(n, s.ra[i]); c.op(strf("resize(%zu,a[%zu])", n, i)); } } break;
+		case 17: if(!s.ra.empty()) { size_t i = p % s.ra.size(); a.push_back(std::move(a[i])); s.ra.push_back(s.ra[i]); c.op(strf("push_back(move(a[%zu]))", i)); } break;
 		}
 	}
 };
@@ -220,7 +229,7 @@ template<typename E>
 struct StackAdapter {
 	using V = frg::stack<E, TrackedAlloc>;
 	static constexpr const char *base = "stack";
-	static constexpr int NOPS = 4;
+	static constexpr int NOPS = 5;
 	struct State {
 		AllocState &as;
 		std::unique_ptr<V> a;
@@ -241,6 +250,7 @@ struct StackAdapter {
 		case 1: { a.emplace(s.next / 1000, s.next % 1000); s.ra.push_back(s.next++); c.op("emplace"); break; }
 		case 2: if(!s.ra.empty()) { a.pop(); s.ra.pop_back(); c.op("pop"); } break;
 		case 3: { while(!s.ra.empty()) { if(a.top().get() != s.ra.back()) { c.fail("top", "top() during drain"); break; } a.pop(); s.ra.pop_back(); } c.op("drain"); break; }
+		case 4: if constexpr (std::is_copy_constructible_v<E>) { if(!s.ra.empty()) { a.push(a.top()); s.ra.push_back(s.ra.back()); c.op("push(top())"); } } break; // the "dup" idiom
 		}
 	}
 };
